@@ -1681,16 +1681,20 @@ class _PeriodicBC(ConstBC1stOrderBase):
     def __str__(self):
         return '"periodic"'
 
-    def copy(self: _PeriodicBC, upper: bool | None = None) -> _PeriodicBC:  # type: ignore
+    def copy(  # type: ignore
+        self: _PeriodicBC, upper: bool | None = None, rank: int | None = None
+    ) -> _PeriodicBC:
         """Return a copy of itself, but with a reference to the same grid.
 
         Args:
             upper (bool): The upper flag of the returned object
+            rank (int): The tensorial rank of the returned object
         """
         return self.__class__(
             grid=self.grid,
             axis=self.axis,
             upper=self.upper if upper is None else upper,
+            rank=self.rank if rank is None else rank,
             flip_sign=self.flip_sign,
         )
 
